@@ -480,4 +480,10 @@ parameter of the model is this fact). -/
 theorem c20_lock_discipline :
     FV.Locks.ok [5, 6] FV.Generated.Locks.mutexTags FV.Generated.Locks.facts = true := by decide +kernel
 
+/-- **No goroutine started in a loop shares a loop variable** (regenerated from lib/go on every check; lib/go's go.mod
+declares a Go version below 1.22, so a `for`/`range` variable is ONE variable for all iterations): no `go func(){…}()`
+inside a loop body uses the loop's own variables or an outer variable assigned in the loop — e.g. a per-subscription
+waiter in the drain that would then watch only the last subscription. -/
+theorem c20_no_loop_variable_captured : FV.Generated.Locks.loopShares = [] := by decide
+
 end FV.C20
